@@ -56,14 +56,33 @@ type c13op struct {
 var c13FarDate = time.Date(9999, 12, 31, 23, 59, 59, 0, time.UTC)
 var c13Far = c13FarDate.Unix() - c13T0.Unix()
 
-// c13sec: whole seconds since c13T0 (through Unix seconds: a time.Duration saturates after 292 years)
-func c13sec(t time.Time) int64 { return t.Unix() - c13T0.Unix() }
+// the unit of the model's integer time and the instant that is its 0. Whole seconds from c13T0 everywhere, except in the
+// sub-second section of c13 (unit 100 ms; the mock clock may start 0.7 s after a whole second): the property is about ANY
+// sequence of clock jumps, not about whole seconds.
+var c13unit = time.Second
+var c13offset = time.Duration(0)
+
+// c13sec: whole units since the origin (through Unix seconds: a time.Duration saturates after 292 years)
+func c13sec(t time.Time) int64 {
+	if c13unit == time.Second && c13offset == 0 {
+		return t.Unix() - c13T0.Unix()
+	}
+	return (t.UnixMilli() - c13T0.Add(c13offset).UnixMilli()) / c13unit.Milliseconds()
+}
+
+// c13onGrid: is the instant a whole number of units from the origin?
+func c13onGrid(t time.Time) bool {
+	if c13unit == time.Second && c13offset == 0 {
+		return t.Nanosecond() == 0
+	}
+	return t.Sub(c13T0.Add(c13offset))%c13unit == 0
+}
 
 func c13tm(x int64) time.Time {
 	if x >= c13Far-100000 {
 		return c13FarDate.Add(time.Duration(x-c13Far) * time.Second)
 	}
-	return c13T0.Add(time.Duration(x) * time.Second)
+	return c13T0.Add(c13offset).Add(time.Duration(x) * c13unit)
 }
 
 func c13opt(x int64) string {
@@ -84,11 +103,16 @@ func c13expr(text string) *schema.AnExpression {
 
 // ISO 8601 text of a definition as timer.New wants it ("" when the parser has no syntax for it)
 func (d c13def) iso() string {
+	// the interval in whole seconds ("" when it is not: only the hook can express it)
+	if (d.interval*int64(c13unit))%int64(time.Second) != 0 {
+		return ""
+	}
+	secs := d.interval * int64(c13unit) / int64(time.Second)
 	switch d.kind {
 	case "date":
 		return c13tm(d.start).Format(time.RFC3339)
 	case "duration":
-		return fmt.Sprintf("PT%dS", d.interval)
+		return fmt.Sprintf("PT%dS", secs)
 	}
 	r := "R"
 	if d.reps >= 0 {
@@ -96,11 +120,11 @@ func (d c13def) iso() string {
 	}
 	switch {
 	case d.start == c13NoTime && d.end == c13NoTime:
-		return fmt.Sprintf("%s/PT%dS", r, d.interval)
+		return fmt.Sprintf("%s/PT%dS", r, secs)
 	case d.start != c13NoTime && d.end == c13NoTime:
-		return fmt.Sprintf("%s/%s/PT%dS", r, c13tm(d.start).Format(time.RFC3339), d.interval)
+		return fmt.Sprintf("%s/%s/PT%dS", r, c13tm(d.start).Format(time.RFC3339), secs)
 	case d.start == c13NoTime && d.end != c13NoTime:
-		return fmt.Sprintf("%s/PT%dS/%s", r, d.interval, c13tm(d.end).Format(time.RFC3339))
+		return fmt.Sprintf("%s/PT%dS/%s", r, secs, c13tm(d.end).Format(time.RFC3339))
 	default:
 		// start/end: the parser derives interval = end - start
 		if d.end-d.start == d.interval {
@@ -118,7 +142,7 @@ type c13run struct {
 }
 
 func c13start(d c13def) (*c13run, error) {
-	r := &c13run{clk: clock.NewMockAt(c13T0)}
+	r := &c13run{clk: clock.NewMockAt(c13T0.Add(c13offset))}
 	ctx, cancel := context.WithCancel(context.Background())
 	r.cancel = cancel
 	if d.via == "new" {
@@ -147,10 +171,10 @@ func c13start(d c13def) (*c13run, error) {
 	case "date":
 		go timer.VerifDateTime(ctx, r.clk, c13tm(d.start), func() { ch <- def; close(ch) })
 	case "duration":
-		go timer.VerifDateTime(ctx, r.clk, r.clk.Now().Add(time.Duration(d.interval)*time.Second), func() { ch <- def; close(ch) })
+		go timer.VerifDateTime(ctx, r.clk, r.clk.Now().Add(time.Duration(d.interval)*c13unit), func() { ch <- def; close(ch) })
 	default:
 		ri := iso8601.RepeatingInterval{Repititions: d.reps}
-		ri.Interval.Duration.Duration = time.Duration(d.interval) * time.Second
+		ri.Interval.Duration.Duration = time.Duration(d.interval) * c13unit
 		st := r.clk.Now()
 		if d.start != c13NoTime {
 			st = c13tm(d.start)
@@ -238,7 +262,7 @@ func (r *c13run) observe() (fires []int64, stuck string) {
 			case _, ok := <-r.ch:
 				if ok {
 					fires = append(fires, c13sec(r.clk.Now()))
-					if r.clk.Now().Nanosecond() != 0 {
+					if !c13onGrid(r.clk.Now()) {
 						stuck = "subsecond"
 					}
 				} else {
@@ -359,7 +383,7 @@ func c13case(out *rec.Out, d c13def, ops []c13op, stats map[string]int) {
 		case "set":
 			r.clk.Set(c13tm(o.arg))
 		case "add":
-			r.clk.Add(time.Duration(o.arg) * time.Second)
+			r.clk.Add(time.Duration(o.arg) * c13unit)
 		case "cancel":
 			r.cancel()
 		case "racecancel":
@@ -505,6 +529,53 @@ func c13enumerate(out *rec.Out, d c13def, grid []int64, maxLen int, keep func() 
 	recur(0)
 }
 
+func c13subsecond(out *rec.Out, tier string, stats map[string]int) {
+	defer func() { c13unit, c13offset = time.Second, 0 }()
+	c13unit = 100 * time.Millisecond
+	N := c13NoTime
+	before := stats["cases"]
+	for _, off := range []time.Duration{0, 700 * time.Millisecond} {
+		c13offset = off
+		type shape struct{ start, interval, end int64 }
+		shapes := []shape{{N, 100, N}}
+		if off == 0 {
+			shapes = append(shapes, shape{200, 100, N}, shape{N, 100, 250}, shape{200, 100, 450})
+		}
+		for _, sh := range shapes {
+			for _, reps := range []int{2, 3, -1} {
+				d := c13def{via: "new", kind: "cycle", reps: reps, start: sh.start, interval: sh.interval, end: sh.end}
+				if d.iso() == "" {
+					d.via = "hook"
+				}
+				z := sh.start
+				if z == N {
+					z = 0
+				}
+				I := sh.interval
+				// exactly at, a fraction late, and inside the second before the next due time counted from the late firing
+				grid := []int64{z + I, z + I + 5, z + 2*I - 3, z + 2*I, z + 2*I + 2, z + 2*I + 5, z + 2*I + 8, z + 3*I + 2, z + 3*I + 5,
+					z + 3*I + 9, z + 4*I + 7, z + 9*I + 3}
+				if z > 0 {
+					grid = append([]int64{z - 4, z, z + 5}, grid...)
+				}
+				n := 3
+				if tier == "thorough" {
+					n = 4
+				}
+				c13enumerate(out, d, grid, n, func() bool { return true }, stats)
+			}
+		}
+		for _, x := range []int64{100, 5} {
+			d := c13def{via: "new", kind: "duration", interval: x, start: N, end: N}
+			if d.iso() == "" {
+				d.via = "hook"
+			}
+			c13enumerate(out, d, []int64{x - 3, x, x + 4, x + 100}, 2, func() bool { return true }, stats)
+		}
+	}
+	stats["subsecond_cases"] = stats["cases"] - before
+}
+
 func c13(out *rec.Out, rng *rec.Rng, tier string, stats map[string]int) {
 	// one P: the timer goroutines run when the harness yields, and looking at all goroutine states
 	// (a stop-the-world) is several times cheaper; the quiescence rule does not depend on it
@@ -520,6 +591,10 @@ func c13(out *rec.Out, rng *rec.Rng, tier string, stats map[string]int) {
 		}
 	}
 	stats["exhaustive_cases"] = stats["cases"]
+	// 1b. sub-second clocks: the unit is 100 ms; definitions in whole seconds (interval 10 s = 100 units), clock jumps that
+	// overshoot a due time by a fraction of a second and then land just before the next one; a mock clock that starts 0.7 s
+	// after a whole second (definitions without absolute dates). The model is the same — its time is a number of units.
+	c13subsecond(out, tier, stats)
 	// 2. seeded random histories: longer, not monotone (Set backwards, Add of 0 / negative), the
 	// cancel anywhere; quick also samples the long monotone sequences here
 	N := 6000
